@@ -8,6 +8,11 @@ using namespace libecpint;
 
 int main() {
 	std::map<std::string, ECPIntegral*> engines;
+	// the result containers live across requests and each request also runs the pair in the opposite order into the SAME containers:
+	// a caller's matrix that held an (LA,LB) block receives the (LB,LA) block next - same element count, other shape
+	TwoIndex<double> V;
+	std::array<TwoIndex<double>, 9> D;
+	std::array<TwoIndex<double>, 45> H;
 	std::string line;
 	while (std::getline(std::cin, line)) {
 		auto t = vh::split(line);
@@ -34,11 +39,17 @@ int main() {
 		ECPIntegral &eng = *engines[key];
 		size_t n = 0, bad = 0;
 		auto scan = [&](const TwoIndex<double> &m) { for (double v : m.data) { n++; if (!std::isfinite(v)) bad++; } };
-		TwoIndex<double> V;
-		eng.compute_shell_pair(U, sh[0], sh[1], V);
-		scan(V);
-		if (deriv >= 1) { std::array<TwoIndex<double>, 9> D; eng.compute_shell_pair_derivative(U, sh[0], sh[1], D); for (auto &m : D) scan(m); }
-		if (deriv >= 2) { std::array<TwoIndex<double>, 45> H; eng.compute_shell_pair_second_derivative(U, sh[0], sh[1], H); for (auto &m : H) scan(m); }
+		auto shape = [&](const TwoIndex<double> &m, int a, int b) {
+			int na = (a + 1) * (a + 2) / 2, nb = (b + 1) * (b + 2) / 2;
+			if (m.dims[0] != na || m.dims[1] != nb || (int) m.data.size() != na * nb) { std::cerr << "VERIF-BOUNDS result matrix has shape " << m.dims[0] << "x" << m.dims[1] << " (" << m.data.size() << " values) for a " << na << "x" << nb << " block\n"; std::abort(); }
+		};
+		for (int order = 0; order < 2; order++) {
+			const GaussianShell &s0 = sh[order], &s1 = sh[1 - order];
+			eng.compute_shell_pair(U, s0, s1, V);
+			scan(V); shape(V, s0.am(), s1.am());
+			if (deriv >= 1) { eng.compute_shell_pair_derivative(U, s0, s1, D); for (auto &m : D) { scan(m); shape(m, s0.am(), s1.am()); } }
+			if (deriv >= 2 && order == 0) { eng.compute_shell_pair_second_derivative(U, s0, s1, H); for (auto &m : H) { scan(m); shape(m, s0.am(), s1.am()); } }
+		}
 		std::cout << "done " << id << " " << n << " " << bad << std::endl;
 	}
 	return 0;
